@@ -618,6 +618,10 @@ def _round_trip(p: Program, rep: Report, F: Folder, table: Dict[str, ClassInfo])
                 rep.undecide("R8.6", f"{ci.name}.to_string: {e}")
                 continue
             w = rx.difference_witness(d, target)
+            if w is not None and _table_driven_rejections(p, ts):
+                rep.undecide("R8.6", f"{ci.name}.to_string rejects values through a table of predicates (a loop that raises ValueError): which texts survive it is not followed "
+                             f"(the language computed without those rejections includes {rx.show(w)})")
+                continue
             if w is not None:
                 rep.violation("R8.6", construct(ts, text=f"return {show(pa.value)[:90]}"), where(ts),
                               f"{ci.name}.to_string can produce {rx.show(w)} for a value that its own to_python returns: the {key!r} placeholder {regex!r} rejects that text (round trip broken)",
@@ -851,4 +855,14 @@ def _date_fields(p: Program, rep: Report, ci: ClassInfo, tp: FuncInfo, v, regex:
         return True
     rep.violation("R8.7", construct(tp, text=f"date fields sliced at {got}"), where(tp),
                   f"DateConvertor.to_python builds date(year, month, day) from the slices {got} but the digit runs of {regex!r} are {runs}: the path parameter is not the date the text denotes")
+    return False
+
+
+def _table_driven_rejections(p: Program, ts: FuncInfo) -> bool:
+    """does to_string (with its private helpers) run a loop over a table whose body raises - rejections the path facts cannot express?"""
+    from ..common import with_helpers as _wh
+    for f_ in _wh(p, ts):
+        for n in ast.walk(f_.node):
+            if isinstance(n, ast.For) and any(isinstance(x, ast.Raise) for x in ast.walk(n)) and any(isinstance(x, ast.Call) and isinstance(x.func, ast.Name) and x.func.id in {t.id for t in ast.walk(n.target) if isinstance(t, ast.Name)} for x in ast.walk(n)):
+                return True
     return False
